@@ -81,6 +81,12 @@ Proof. vm_compute. repeat split. Qed.
 Theorem C11_src_probably_sparse : forall blocks size, x_probably_sparse blocks size = probably_sparse blocks size.
 Proof. exact x_probably_sparse_ok. Qed.
 
+(* CopyHandle::copy_sparse, translated from the current source (next_sparse_segments and copy_bytes being the
+   modelled helpers), is the model's sparse walk — for all fuel, lengths, block sizes, seek oracles and answers *)
+Theorem C11_src_copy_sparse_loop : forall fuel sd sh flen bs ans,
+  x_copy_sparse fuel sd sh flen bs ans = copy_sparse fuel bs flen 0 sd sh ans.
+Proof. exact x_copy_sparse_ok. Qed.
+
 Print Assumptions C11_parfile_writes_only_data.
 Print Assumptions C11_parblock_writes_only_extents.
 Print Assumptions C11_entirely_empty_parfile.
@@ -88,3 +94,4 @@ Print Assumptions C11_entirely_empty_parblock.
 Print Assumptions C11_overwrite_starts_empty.
 Print Assumptions C11_probably_sparse_spec.
 Print Assumptions C11_src_probably_sparse.
+Print Assumptions C11_src_copy_sparse_loop.
